@@ -187,6 +187,31 @@ CLAIMS = {
         "every circuit with exp(-iHT) at 4/8/16 steps.",
         COMMON_NOTE,
         "DESIGN.md §3 C07"),
+    "C10": (
+        "Coq proof (amplitude semantics over an abstract commutative ring: right and left gauge moves and rescaling preserve every amplitude, any length/bond/physical dimensions, any factorisation; flag model: requested canonical form is reached and reported) + flag/centre correspondence on the real tensors + vector-preservation check over random operation sequences",
+        "Machine-checked proof, over any commutative ring with an involution, that replacing a site tensor by Q and letting its right "
+        "(resp. left) neighbour absorb R, for ANY factorisation tensor = Q.R with any inner dimension, leaves EVERY amplitude of an MPS "
+        "of any length, bond and (mixed) physical dimensions unchanged, and that scaling a site scales every amplitude (normalisation "
+        "only rescales); and, in the flag model of the MPS class, that set_canonical_form(c) yields left-isometric sites left of c and "
+        "right-isometric sites right of c from any prior knowledge and that the canonical-form query lists c. Ties: the isometry the "
+        "model derives after random sequences of shift/set/normalize/flip (QR and SVD) must be measured on the real tensors and its "
+        "centres reported by the real check_canonical_form; the independently contracted vector must be unchanged by every operation. "
+        "PARTIAL: LAPACK returning a valid factorisation (SVD mode: within 1e-12), flip_network and zero padding are tied numerically.",
+        COMMON_NOTE,
+        "DESIGN.md §3 C10"),
+    "C12": (
+        "Coq proof (for a right-isometric site the outcome weights sum to the incoming weight; the weight of a partial outcome is the total Born weight of all completions, any chain; integer keys: bit i = site i, injective; counts sum to shots for every history) + all-branches forced-sampler correspondence + in-place measurement and weak-run search",
+        "Machine-checked proof, over any commutative ring with an involution and for chains of any length and dimensions, that the "
+        "weights the site-by-site sampler assigns at a right-isometric site add up to the weight of the partial outcome fixed so far and "
+        "that this weight equals the total Born weight of all completions (so the chain of conditional probabilities is the Born "
+        "distribution of a normalised right-canonical state); that bit i of the returned integer is the outcome of site i and distinct "
+        "strings get distinct keys; that weak counts sum to the requested shots after any history of runs. Tie: every one of the 2^L "
+        "branches of measure_single_shot is forced (scripted choice) for random entangled states in the Z, X and Y bases and the product "
+        "of the vectors handed to choice is compared with the dense Born probability; keys vs the model. Search: in-place measure() "
+        "(probability and projected state, both outcomes) and weak simulations (counts, key range, no zero-probability outcome). "
+        "PARTIAL: basis rotation and numpy's choice are modelled, not verified.",
+        COMMON_NOTE,
+        "DESIGN.md §3 C12"),
 }
 
 NOT_YET = "check not built yet in this round (planned in DESIGN.md §3); no claim is made"
